@@ -2717,6 +2717,16 @@ class AsyncIOBackend(AsyncBackend):
                 task = cast(asyncio.Task, current_task())
                 _task_states[task] = TaskState(None, scope)
                 scope._tasks.add(task)
+
+                # If the scope is already (effectively) cancelled, its cancellation
+                # delivery may have wound down because no eligible tasks were left, so
+                # restart it to make sure that this task gets cancelled too
+                if scope._cancel_called:
+                    if scope._cancel_handle is None:
+                        scope._deliver_cancellation(scope)
+                elif not scope._shield:
+                    scope._restart_cancellation_in_parent()
+
             try:
                 return await func(*args)
             except CancelledError as exc:
